@@ -84,6 +84,24 @@ class MetaMonitor(Monitor):
         for k, s in enumerate(args):
             if not relative_order_kept(res_pos_names, [p.name for p in in_pos[k]]):
                 self.V('merge-positional-order', 'positional parameters of input %d appear in another relative order in the result' % k, w, rp)
+        # "a kind only changes to the more restrictive form REQUIRED": a positional parameter of the result may only be
+        # positional-only if, at its index or a later one, some input has a positional-only parameter, another name,
+        # or no named positional parameter at all (positional-only parameters form a prefix)
+        # (only judged when every input has as many named positional parameters as the result: a surplus parameter
+        # absorbed by another input's *args legitimately restricts everything before it)
+        same_length = all(len(in_pos[k]) == len(res_pos) for k in range(len(args)))
+        for idx, r in enumerate(res_pos if same_length else ()):
+            if r.kind != r.POSITIONAL_ONLY:
+                continue
+            needed = False
+            for j in range(idx, len(res_pos)):
+                for k in range(len(args)):
+                    if j >= len(in_pos[k]) or in_pos[k][j].kind == r.POSITIONAL_ONLY or in_pos[k][j].name != res_pos[j].name:
+                        needed = True
+            if not needed:
+                self.V('merge-kind-restricted-without-need',
+                       'parameter %r is positional-only in the result although every input has a positional-or-keyword parameter of that name there, and of the same names after it' % r.name, w, rp)
+                break
         interesting = False
         for r in value.parameters.values():
             if r.kind in (r.VAR_POSITIONAL, r.VAR_KEYWORD):
